@@ -10,7 +10,7 @@ Ops ==   { [op |-> "create", i |-> i, limited |-> l] : i \in Insts, l \in BOOLEA
     \cup { [op |-> "null", i |-> 0, what |-> w] : w \in {"call", "callempty", "config", "status"} }
     \cup { [op |-> "config", i |-> i, kind |-> k] : i \in Insts, k \in CfgKinds }
     \cup { [op |-> "call", i |-> i, type |-> "s", kind |-> k] : i \in Insts, k \in SqfKinds }
-    \cup { [op |-> "call", i |-> i, type |-> t, kind |-> k] : i \in Insts, t \in {"p", "1", "?"}, k \in {"setg1", "ppfail", "parsefail", "empty"} }
+    \cup { [op |-> "call", i |-> i, type |-> t, kind |-> k] : i \in Insts, t \in {"p", "1", "?"}, k \in {"setg1", "ppfail", "parsefail", "empty", "evalerr"} }
 
 Init == st = InitState /\ hist = <<>> /\ lastobs = [ret |-> 0, status |-> 0, out |-> ""] /\ prev = InitState /\ lastop = [op |-> "init"]
 Next == \E o \in Ops :
